@@ -237,6 +237,8 @@ pub fn make(spec: &JobSpec, ex: &mut Executor, out: &mut JobResult) -> Option<Bo
             }
             Some(Box::new(FaultJob { base, points: points.into_iter().map(|p| p.scenario).collect(), case: c }))
         }
+        "coherence" => Some(Box::new(CoherenceJob)),
+        "single" if spec.params.get("scenario").and_then(|s| s.get("label")).and_then(|l| l.as_str()) == Some("C19 coherence catalogue") => Some(Box::new(CoherenceJob)),
         "single" => {
             let sc: Scenario = serde_json::from_value(spec.params.get("scenario")?.clone()).ok()?;
             // rebuild the expectation from the label is not possible (inputs are seeded); the
@@ -392,5 +394,116 @@ impl Job for FaultJob {
         let vk = r.ops.iter().find_map(|o| o.outcome.violation_kind()).unwrap_or("none").to_string();
         let parts: Vec<&str> = self.case.label.split_whitespace().collect();
         out.tuples.insert(format!("{}|{}|{}|{}", parts.get(1).unwrap_or(&""), parts.get(3).unwrap_or(&""), vk, r.fired_sites.first().cloned().unwrap_or_default()));
+    }
+}
+
+// ------------------------------------------------------------------ coherence catalogue (fixed, not simulation)
+
+/// (name, xray type, pool of literal expressions, has hash, has cmp)
+const COHERENCE_TYPES: &[(&str, &str, &[&str], bool, bool)] = &[
+    ("int", "int", &["0", "1", "0 - 1", "2 ** 64", "0 - 2 ** 64", "7", "2 ** 64 + 0", "2 ** 63"], true, true),
+    ("float", "float", &["0.0", "-0.0", "1.5", "-1.5", "1e300", "-1e300", "0.1", "0.1 + 0.2 - 0.2", "0.0 * -1.0"], false, true),
+    ("str", "str", &["\"\"", "\"a\"", "\"b\"", "\"é\"", "\"ab\"", "\"a\" + \"b\"", "\"A\""], true, true),
+    ("bool", "bool", &["true", "false", "1 == 1"], true, true),
+    ("tuple-int-float", "(int, float)", &["(1, 0.0)", "(1, -0.0)", "(0, 1.5)", "(1, 1.5)", "(2, -1.5)", "(1, 0.0 * -1.0)"], false, true),
+    ("tuple-int-str", "(int, str)", &["(1, \"a\")", "(1, \"b\")", "(0, \"z\")", "(1, \"a\" + \"\")", "(2, \"\")"], true, true),
+    ("seq-float", "Sequence<float>", &["[0.0]", "[-0.0]", "cast<Sequence<float>>([])", "[1.5, 0.0]", "[1.5, -0.0]", "[1.5]"], false, true),
+    ("seq-int", "Sequence<int>", &["[1, 2]", "[1, 2, 3]", "cast<Sequence<int>>([])", "[2]", "range(1, 3).to_array()", "range(1, 3)"], true, true),
+    ("optional-int", "Optional<int>", &["some(0)", "some(1)", "cast<Optional<int>>(none())", "some(2 - 1)"], true, false),
+    ("optional-float", "Optional<float>", &["some(0.0)", "some(-0.0)", "cast<Optional<float>>(none())", "some(1.5)"], false, false),
+];
+
+pub fn coherence_program() -> (String, usize) {
+    let mut text = String::from("fn v_sgn(v_x: int)->int{ if(v_x < 0, 0 - 1, if(v_x > 0, 1, 0)) }\n");
+    let mut body = vec![];
+    for (name, ty, pool, has_hash, has_cmp) in COHERENCE_TYPES {
+        let id = name.replace('-', "_");
+        let mut rel = String::from("((v_a == v_b) == (v_b == v_a)) && ((v_a != v_b) == !(v_a == v_b))");
+        if *has_cmp {
+            rel.push_str(" && ((v_a == v_b) == (cmp(v_a, v_b) == 0)) && ((v_a < v_b) == (cmp(v_a, v_b) < 0)) && ((v_a <= v_b) == (cmp(v_a, v_b) <= 0)) && ((v_a > v_b) == (cmp(v_a, v_b) > 0)) && ((v_a >= v_b) == (cmp(v_a, v_b) >= 0)) && (v_sgn(cmp(v_a, v_b)) == 0 - v_sgn(cmp(v_b, v_a)))");
+        }
+        if *has_hash {
+            rel.push_str(" && (!(v_a == v_b) || hash(v_a) == hash(v_b)) && hash(v_a) >= 0 && hash(v_a) < 2 ** 64");
+        }
+        text.push_str(&format!("fn v_rel_{id}(v_a: {ty}, v_b: {ty})->bool{{ {rel} }}\n"));
+        text.push_str(&format!("let v_pool_{id} = [{}];\n", pool.iter().map(|p| format!("cast<{ty}>({p})")).collect::<Vec<_>>().join(", ")));
+        let n = pool.len();
+        // failing pairs
+        text.push_str(&format!(
+            "fn v_bad_{id}()->Sequence<int>{{ range({nn}).filter((v_i: int)->{{ !v_rel_{id}(v_pool_{id}[floor(v_i / {n})], v_pool_{id}[v_i % {n}]) }}).to_array() }}\n",
+            nn = n * n
+        ));
+        body.push(format!("display(\"{name} pairs \" + v_bad_{id}().to_str())"));
+        if *has_cmp {
+            // transitivity of <= over all triples, and reflexivity of eq
+            text.push_str(&format!(
+                "fn v_trans_{id}()->Sequence<int>{{ range({nnn}).filter((v_i: int)->{{ cmp(v_pool_{id}[floor(v_i / {n2})], v_pool_{id}[floor(v_i / {n}) % {n}]) <= 0 && cmp(v_pool_{id}[floor(v_i / {n}) % {n}], v_pool_{id}[v_i % {n}]) <= 0 && !(cmp(v_pool_{id}[floor(v_i / {n2})], v_pool_{id}[v_i % {n}]) <= 0) }}).to_array() }}\n",
+                nnn = n * n * n,
+                n2 = n * n
+            ));
+            body.push(format!("display(\"{name} triples \" + v_trans_{id}().to_str())"));
+            // sorting a sequence of equal-comparing but distinguishable pairs keeps their order
+            text.push_str(&format!(
+                "fn v_stable_{id}()->bool{{ let v_tagged = range({n}).map((v_i: int)->{{(v_pool_{id}[v_i], v_i)}}).to_array(); let v_sorted = v_tagged.sort((v_x: ({ty}, int), v_y: ({ty}, int))->{{cmp(v_x::item0, v_y::item0)}}); range({nm1}).all((v_i: int)->{{ cmp(v_sorted[v_i]::item0, v_sorted[v_i + 1]::item0) < 0 || (cmp(v_sorted[v_i]::item0, v_sorted[v_i + 1]::item0) == 0 && v_sorted[v_i]::item1 < v_sorted[v_i + 1]::item1) }}) }}\n",
+                nm1 = n - 1
+            ));
+            body.push(format!("display(\"{name} stable \" + v_stable_{id}().to_str())"));
+        }
+    }
+    text.push_str("fn main()->bool{\n");
+    for (j, b) in body.iter().enumerate() {
+        text.push_str(&format!("    let v_o{j} = {b};\n"));
+    }
+    text.push_str("    true\n}\n");
+    (text, body.len())
+}
+
+pub struct CoherenceJob;
+
+impl Job for CoherenceJob {
+    fn len(&self) -> usize {
+        1
+    }
+    fn scenario(&mut self, _i: usize) -> Scenario {
+        let (text, _) = coherence_program();
+        let mut sc = Scenario::standard(&text, Limits::calibration());
+        sc.label = "C19 coherence catalogue".to_string();
+        sc
+    }
+    fn judge(&mut self, _i: usize, sc: &Scenario, r: Exec, out: &mut JobResult) {
+        let r = match r {
+            Exec::Run(r) => r,
+            Exec::CompileError(m) => {
+                out.notes.push(format!("coherence catalogue does not compile: {}", m.chars().take(300).collect::<String>()));
+                out.count("case_compile_failures", 1);
+                return;
+            }
+            Exec::CompilePanic(p) => {
+                out.violate(violation(P, P, ("crash".into(), crash_signature(&p), p.clone()), sc));
+                return;
+            }
+        };
+        out.absorb_run(&r);
+        balance_and_crash(sc, &r, out);
+        let text = String::from_utf8_lossy(&r.out).to_string();
+        if !matches!(r.main_outcome(), Outcome::Value(v) if v == "true") {
+            out.violate(violation(P, P, ("coherence".into(), "coherence catalogue did not complete".into(), format!("{:?}", r.main_outcome())), sc));
+            return;
+        }
+        for line in text.lines() {
+            let ok = line.ends_with(" []") || line.ends_with(" true");
+            let mut parts = line.splitn(3, ' ');
+            let (ty, what) = (parts.next().unwrap_or(""), parts.next().unwrap_or(""));
+            if !ok {
+                out.violate(violation(
+                    P,
+                    P,
+                    ("coherence".into(), format!("{ty}: eq / cmp / hash / relational operators disagree ({what})"), format!("{line} (indices are i*n+j over the type's value pool)")),
+                    sc,
+                ));
+            }
+            out.tuples.insert(format!("coherence|{ty}|{what}"));
+            out.probe("coherence_relations_checked");
+        }
     }
 }
